@@ -95,6 +95,12 @@ def nonFastRef (NF : List String) : FieldDecl → Bool
   | .struct c _ _ => !c.inline && NF.contains c.name
   | _ => false
 
+/-- `[item_class.serialize(x) for x in value]` for an item class without a `serialize` attribute
+    (since 1424460 the attribute is looked up at every call): AttributeError at the first element,
+    nothing happens for an empty collection -/
+def lateLookup (xs : List PyVal) : R (List PyVal) :=
+  if xs.isEmpty then .ok [] else .error (.other "AttributeError")
+
 def attrsOf : PyVal → List (String × PyVal)
   | .inst _ attrs => attrs
   | _ => []
@@ -112,14 +118,14 @@ def fser (Mp : MapEnv) (NF : List String) : FieldDecl → PyVal → R PyVal
   | .enumCls _ _, v => fEnumName v
   | .seqOf .list item _, v =>
     if isNumOrStr item then fList (fun xs => .ok xs) v       -- `list(value)`: a copy, same elements
-    else if nonFastRef NF item then .error (.other "AttributeError")     -- `items._ty.serialize`
+    else if nonFastRef NF item then fList lateLookup v     -- `item_class.serialize(x)`, looked up per element
     else fList (mapE (fser Mp NF item)) v
   | .seqOf .deque item _, v => fList (mapE (fser Mp NF item)) v
   | .seqPos .list items _ _, v => fList (fserZipRaw Mp NF items) v    -- surplus elements: `deepcopy(x)`
   | .seqPos .deque items _ _, v => fList (fserZip Mp NF items) v
   | .seqAny _ _, v => fList (fun xs => .ok xs) v              -- `deepcopy(list(value))`
   | .setOf _ item _, v =>
-    if nonFastRef NF item then .error (.other "AttributeError")
+    if nonFastRef NF item then fList lateLookup v
     else fList (mapE (fser Mp NF item)) v
   | .setAny _ _, v => fList (fun xs => .ok xs) v
   | .tupleOf item _, v => fList (mapE (fser Mp NF item)) v       -- `Tuple[X]`: all elements through X
